@@ -187,8 +187,8 @@ func c20MakeVals() []c20Val {
 	vs := []c20Val{
 		c20Go("int", func() interface{} { return int64(2) }),
 		c20Go("zero", func() interface{} { return int64(0) }),
-		c20Go("big", func() interface{} { return int64(5000) }), // outside the small-int cache
-		c20Go("huge", func() interface{} { return int64(9007199254740993) }), // not representable in float64
+		c20Go("big", func() interface{} { return int64(5000) }),               // outside the small-int cache
+		c20Go("huge", func() interface{} { return int64(9007199254740993) }),  // not representable in float64
 		c20Nil(c20Go("nilslice", func() interface{} { return []int64(nil) })), // typed nil values
 		c20Nil(c20Go("nilmap", func() interface{} { return map[string]int64(nil) })),
 		c20Nil(c20Go("nilptr", func() interface{} { return (*int64)(nil) })),
@@ -307,6 +307,19 @@ func c20MakeAtoms() []c20Atom {
 		{name: "modvar", assignable: true, apply: place(0, false,
 			func(e, n string) []string { return []string{"module M" + n + " { x = " + e + " }"} },
 			func(n string) string { return "M" + n + ".x" })},
+		{name: "tstrelemvar", assignable: true, only: map[string]bool{"str": true, "strnum": true}, apply: place(0, true,
+			func(e, n string) []string { return []string{"ts" + n + " = []string{" + e + "}"} },
+			func(n string) string { return "ts" + n + "[0]" })},
+		{name: "strfieldvar", assignable: true, only: map[string]bool{"str": true, "strnum": true}, apply: place(0, false,
+			func(e, n string) []string {
+				return []string{"sf" + n + " = make(struct{S string})", "sf" + n + ".S = " + e}
+			},
+			func(n string) string { return "sf" + n + ".S" })},
+		{name: "letfromtstr", assignable: true, only: map[string]bool{"str": true, "strnum": true}, apply: place(0, false,
+			func(e, n string) []string {
+				return []string{"tq" + n + " = []string{" + e + "}", "xq" + n + " = tq" + n + "[0]"}
+			},
+			func(n string) string { return "xq" + n })},
 		{name: "chanrecv", noChan: true, apply: func(h c20Hole, n string) c20Hole {
 			p := append(append([]string{}, h.pre...), "c"+n+" = make(chan interface, 1)", "c"+n+" <- "+h.expr)
 			return c20Hole{pre: p, expr: "(<-c" + n + ")", boxed: true}
@@ -452,6 +465,8 @@ func c20MakeTmpls() []c20Tmpl {
 	add(c20Tmpl{id: "elem-store-0s", src: `$X[0] = "z"`, strNeedsAssignable: true})
 	add(c20Tmpl{id: "elem-store-k", src: `$X["k"] = 9`, strNeedsAssignable: true})
 	add(c20Tmpl{id: "elem-store-append", src: "$X[3] = 9", needAssignable: true})
+	add(c20Tmpl{id: "elem-store-append-s", src: "$X[3] = \"z\"", needAssignable: true})
+	add(c20Tmpl{id: "elem-store-append-1", src: "$X[1] = \"z\"", needAssignable: true})
 	add(c20Tmpl{id: "slice-store", src: "$X[0:1] = [9]", strNeedsAssignable: true})
 	T("store-idx-list", "a = [1, 2, 3]\na[$X] = 9\na")
 	T("store-key-map", "m = {}\nm[$X] = 1\nm")
@@ -827,12 +842,19 @@ func (g *c20Engine) chainOK(t *c20Tmpl, val *c20Val, chain []int) (bool, string)
 		if a.noChan && (val.kind == "chan" || val.kind == "chanc") {
 			return false, "channel-forwarding"
 		}
-		if a.only != nil && !a.only[val.kind] {
+		if a.only != nil && (!a.only[val.kind] || (t.ykind != "" && t.ykind != "same" && !a.only[t.ykind])) {
 			return false, "typed-container-of-other-type"
 		}
 	}
 	if (t.needAssignable || (t.strNeedsAssignable && c20Rebinds[val.kind])) && !last.assignable {
 		return false, "store-needs-assignable-hole"
+	}
+	if last.only != nil && last.assignable {
+		// the hole is a typed string place: what a store of a non-string does there is the
+		// typed container's conversion rule (C10), not a matter of the operand's provenance
+		if t.effectOnly && t.id != "add-assign-str" {
+			return false, "non-string-store-into-typed-place"
+		}
 	}
 	return true, ""
 }
@@ -967,7 +989,7 @@ func init() {
 			return fw.Plan{
 				Level: "exploration",
 				Rule: fmt.Sprintf("metamorphic: %d operation templates x %d operand values x provenance chains over %d atoms; reference = plain variable. "+
-					"phase fixed: the difference classes seen on the pinned tree; phase len1: EVERY template x value x atom (complete); "+
+					"phase fixed: the difference classes seen on the pinned tree; phase pairs: arguments bound by spreading a list (f(l...), f(0, l...), under defer and go, into fixed-arity script functions) against the same arguments written out (f(l[0], l[1])), with callees that overwrite the list, keep a closure, assign their parameter or apply kind-sensitive operators (complete list); phase len1: EVERY template x value x atom (complete); "+
 					"phase deep: quick = 8 PRNG chains of length 2..3 per (template,value), thorough = every chain of length 2 plus 80 PRNG chains of length 3. "+
 					"Each instantiation runs in a fresh environment with fresh operand objects. An evaluation is non-trivial when the reference or the variant succeeded; distinct = distinct (template, value, source).", nT, nV, nA),
 				Assumptions: []string{
@@ -978,12 +1000,15 @@ func init() {
 				Phases: []fw.Phase{
 					{Name: "fixed", Cases: len(c20FixedCases), Chunk: len(c20FixedCases), Exhaust: true, TimeoutS: 300},
 					{Name: "len1", Cases: nT * nV, Chunk: 160, Exhaust: true, TimeoutS: 900},
+					{Name: "pairs", Cases: len(c20Pairs()), Chunk: 64, Exhaust: true, TimeoutS: 600},
 					{Name: "deep", Cases: nT * nV, Chunk: map[string]int{"quick": 160, "thorough": 40}[tier], TimeoutS: 1800},
 				},
 			}
 		},
 		Run: func(c *wk.Case) {
 			switch c.Phase {
+			case "pairs":
+				c20RunPair(c, c20Pairs()[c.Index])
 			case "fixed":
 				f := c20FixedCases[c.Index]
 				chain := make([]int, len(f.chain))
@@ -1031,4 +1056,87 @@ func init() {
 			}
 		},
 	})
+}
+
+// ---------------------------------------------------------------------------
+// pairs: an argument obtained by spreading a list is the same value as the
+// argument written out
+
+type c20Pair struct{ id, a, b string }
+
+var c20PairList []c20Pair
+
+func c20Pairs() []c20Pair {
+	if c20PairList != nil {
+		return c20PairList
+	}
+	lists := []struct{ name, src string }{
+		{"ints", "[1, 2]"}, {"mixed", "[\"x\", [1, 2]]"}, {"nils", "[nil, nil]"}, {"typednil", "[make([]map[string]int64, 1)[0], make([][]int64, 1)[0]]"},
+		{"structs", "[ps, pi]"}, {"big", "[5000, 2.5]"}, {"fromgo", "id([1, \"s\"])"},
+	}
+	callees := []struct{ name, def, after string }{
+		{"read", "func(a, b){ return [a, b] }", ""},
+		{"overwrite-then-read", "func(a, b){ sl[0] = 99; sl[1] = 98; return [a, b] }", ""},
+		{"closure-read-later", "func(a, b){ return func(){ return [a, b] } }", "sl[0] = 99\nsl[1] = 98\nr = r()"},
+		{"assign-param", "func(a, b){ a = 5; b = 6; return sl }", ""},
+		{"coalesce", "func(a, b){ return [a ?? \"d\", b ?? \"d\", typeOf(a), kindOf(b)] }", ""},
+		{"compare", "func(a, b){ return [a == nil, b == nil, a == b, !a] }", ""},
+		{"opassign-param", "func(a, b){ a += 1; return [a, sl] }", ""},
+	}
+	for _, l := range lists {
+		for _, ce := range callees {
+			mk := func(call string) string {
+				src := "sl = " + l.src + "\nF = " + ce.def + "\nF3 = func(z, a, b){ return F(a, b) }\nr = " + call
+				if ce.after != "" {
+					src += "\n" + ce.after
+				}
+				return src + "\n[r, sl]"
+			}
+			id := l.name + ":" + ce.name
+			c20PairList = append(c20PairList,
+				c20Pair{id + ":call", mk("F(sl...)"), mk("F(sl[0], sl[1])")},
+				c20Pair{id + ":call-lead", mk("func(z, a, b){ sl[0] = 97; return [z, a, b] }(0, sl...)"), mk("func(z, a, b){ sl[0] = 97; return [z, a, b] }(0, sl[0], sl[1])")},
+				c20Pair{id + ":call-var", mk("F(id(sl)...)"), mk("F(id(sl)[0], id(sl)[1])")})
+		}
+		// deferred and go calls: the arguments are the values at the statement
+		dmk := func(call string) string {
+			return "sl = " + l.src + "\nG = func(a, b){ glog(\"G\", a, b) }\nfunc(){\n defer " + call + "\n sl[0] = 99\n sl[1] = 98\n}()\nsl"
+		}
+		gmk := func(call string) string {
+			return "sl = " + l.src + "\ndn = make(chan interface, 1)\nhold = make(chan interface)\nG = func(a, b){ <-hold; glog(\"G\", a, b); dn <- 1 }\ngo " + call + "\nsl[0] = 99\nsl[1] = 98\nhold <- 1\n<-dn\nsl"
+		}
+		c20PairList = append(c20PairList,
+			c20Pair{l.name + ":defer", dmk("G(sl...)"), dmk("G(sl[0], sl[1])")},
+			c20Pair{l.name + ":go", gmk("G(sl...)"), gmk("G(sl[0], sl[1])")})
+	}
+	return c20PairList
+}
+
+func c20RunPair(c *wk.Case, p c20Pair) {
+	run := func(src string) c20Out {
+		st := c20NewState()
+		c.Begin(map[string]string{"pair": p.id, "src": src})
+		ctx, cancel := context.WithTimeout(context.Background(), 20*time.Second)
+		defer cancel()
+		o := ank.ExecCtx(ctx, st.env, src)
+		out := c20Out{src: src, class: c20Class(o)}
+		if out.class == "ok" {
+			out.val = c20NoAddr(st.render(o.Val))
+		}
+		out.goside = c20NoAddr("log=[" + st.logString() + "]")
+		return out
+	}
+	a, b := run(p.a), run(p.b)
+	c.Eval("pair|"+p.id, a.class == "ok" || b.class == "ok")
+	c.Events(2)
+	c.Tag("pair:"+p.id[strings.Index(p.id, ":")+1:], "outcome:"+a.class)
+	if a.class == "timeout" || b.class == "timeout" {
+		c.Inconclusive("timeout:pair:"+p.id, "", map[string]string{"spread": p.a, "written_out": p.b})
+		return
+	}
+	if a.class != b.class || a.val != b.val || a.goside != b.goside {
+		c.Violation("pair:spread-vs-written-out:"+p.id[strings.Index(p.id, ":")+1:],
+			fmt.Sprintf("arguments bound by spreading: %s %s %s  BUT the same arguments written out: %s %s %s", a.class, a.val, a.goside, b.class, b.val, b.goside),
+			map[string]string{"pair": p.id, "spread": p.a, "written_out": p.b})
+	}
 }
